@@ -95,7 +95,7 @@ RULE_SCHED = (
 @plan("C02")
 def c02(tier, seed):
     return dict(
-        jobs=medium_jobs("C02", tier, seed) + w3_jobs(seed) + sched_jobs(tier, seed, gen=dict(nmax=9, mc_max=4), selections=True)
+        jobs=[dict(kind="scale", pid="C02", n_cases=(5 if tier == "quick" else 12), deep=True, nmin=150, nmax=(350 if tier == "quick" else 700), **_seeds(seed + 315, k)) for k in range(1 if tier == "quick" else 4)] + medium_jobs("C02", tier, seed) + w3_jobs(seed) + sched_jobs(tier, seed, gen=dict(nmax=9, mc_max=4), selections=True)
         # a dependency that RAISES has not returned either: failing nodes of every resource, nothing downstream may be entered
         + sched_jobs(tier, seed + 13, gen=dict(nmax=7, mc_max=3), faults=True, fault_rate=0.7, stress=False, dfs=False, scale=0.3)
         # executors that are run again (after a failure / a success), both flavours: no missing or stale values on the second run
